@@ -465,9 +465,9 @@ V("c19-sgr-omitted-code-dropped", "C19", AN, "                    if _code.isdec
 V("c19-token-sgr-default-empty", "C19", AN, "    sgr: Optional[str] = None\n", '    sgr: Optional[str] = ""\n', "R19.14")
 V("c19-sgr-omitted-code-one", "C19", AN, 'min(255, int(_code.lstrip("0")[:4] or "0"))', 'min(255, int(_code.lstrip("0")[:4] or "1"))', "R19.14")
 V("c19-benign-sgr-omitted-eq", "C19", AN, "                    if _code.isdecimal() or not _code\n", '                    if _code == "" or _code.isdecimal()\n', None)
-V("c19-cr-trailing-drops-line", "C19", AN, '        line = line.rstrip("\\r").rsplit("\\r", 1)[-1]\n', '        line = line.rsplit("\\r", 1)[-1]\n', "R19.15")
-V("c19-cr-keeps-head", "C19", AN, '        line = line.rstrip("\\r").rsplit("\\r", 1)[-1]\n', '        line = line.rstrip("\\r").split("\\r", 1)[0]\n', "R19.15")
-V("c19-benign-cr-two-steps", "C19", AN, '        line = line.rstrip("\\r").rsplit("\\r", 1)[-1]\n', '        line = line.rstrip("\\r")\n        if "\\r" in line:\n            line = line[line.rindex("\\r") + 1 :]\n', None)
+V("c19-cr-trailing-drops-line", "C19", AN, '        line = line.rstrip("\\r")\n        for token in _ansi_tokenize(line):', '        line = line.rsplit("\\r", 1)[-1]\n        for token in _ansi_tokenize(line):', "R19.15")
+V("c19-cr-cuts-escapes", "C19", AN, '        line = line.rstrip("\\r")\n        for token in _ansi_tokenize(line):', '        line = line.rstrip("\\r").rsplit("\\r", 1)[-1]\n        for token in _ansi_tokenize(line):', "R19.15")
+V("c19-benign-cr-strip-loop", "C19", AN, '        line = line.rstrip("\\r")\n        for token in _ansi_tokenize(line):', '        while line.endswith("\\r"):\n            line = line[:-1]\n        for token in _ansi_tokenize(line):', None)
 V("c06-rgb-name-as-typed", "C06", CO, "            return cls(triplet.rgb, ColorType.TRUECOLOR, triplet=triplet)\n", "            return cls(color, ColorType.TRUECOLOR, triplet=triplet)\n", "R6.11")
 V("c06-rgb-name-original", "C06", CO, "            return cls(triplet.rgb, ColorType.TRUECOLOR, triplet=triplet)\n", "            return cls(original_color, ColorType.TRUECOLOR, triplet=triplet)\n", "R6.9")
 V("c06-benign-rgb-name-fstring", "C06", CO, "            return cls(triplet.rgb, ColorType.TRUECOLOR, triplet=triplet)\n", '            return cls(f"rgb({triplet.red},{triplet.green},{triplet.blue})", ColorType.TRUECOLOR, triplet=triplet)\n', None)
